@@ -3,20 +3,35 @@ import C2paModel.Base
 C39 — model of how an ingredient is captured and merged:
 
 * `Ingredient::add_stream_internal` → `update_validation_status` (sdk/src/ingredient.rs): what is
-  recorded from the stand-alone validation of the ingredient asset (`addStream`), one branch per
-  `match result` arm;
-* the v3 ingredient-assertion rule checked when the claim is built (`toAssertion`:
-  `activeManifest` and `validationResults` must both be present or both absent);
+  recorded from the stand-alone validation of the ingredient asset. `armOf` is the arm selection of
+  the `match result` by error class, `record` is the body of every arm (with the two conditions of
+  the `Ok` arm: `active_manifest` only when the store has a provenance claim, `manifest_data` only
+  when manifest bytes were handed in), `addStreamInternal` is the caller (load the manifest bytes,
+  validate them against the asset, record);
+* `Ingredient::add_to_claim` (`addToClaim`): the manifest reference of the ingredient assertion comes
+  from the recorded manifest data (not from `active_manifest`); a version 1 claim gets a v2
+  ingredient assertion (reference + `validation_status`), a version 2 claim a v3 assertion, whose
+  serialiser enforces "`activeManifest` and `validationResults` both present or both absent"
+  (`toAssertion`);
 * `Store::load_ingredient_to_claim` + `Claim::add_ingredient_data` /
   `replace_ingredient_or_insert` (sdk/src/store.rs, sdk/src/claim.rs): the merge of the
-  ingredient's manifest store into the claim's ingredient store, with the label-conflict branch
-  as coded (`merge`).
+  ingredient's manifest store into the claim's ingredient store (`merge`), with the gates
+  "ingredient missing provenance claim", "ingredient version too new" (provenance claim newer than
+  the claim), `VersionCompatibility` (any added claim newer than the claim) and the label-conflict
+  branch as coded;
+* `ValidationResults::from_store` (sdk/src/validation_results.rs): which statuses logged while the
+  parent is read are reported, given the statuses already captured in ingredient assertions
+  (`fromStore`) — the relation between the recorded results and the parent Reader's ingredient
+  deltas.
 
-A manifest is its label (parsed by `manifest_label_to_parts` into guid / version / reason) and
-an opaque content (claim + assertion + signature bytes; equality of contents is equality of
-`get_manifest_box_hashes`). Not modelled: redaction-explained conflicts
-(`manifest_differs_by_redaction` — the model's `merge` takes the answer of that function as a
-parameter and keeps its three arms), OCSP capture, thumbnails.
+A manifest is its label (parsed by `manifest_label_to_parts` into guid / version / reason), an
+opaque content (claim + assertion + signature bytes; equality of contents is equality of
+`get_manifest_box_hashes`) and the claim version of its claim. The provenance (active) claim of a
+store is its last manifest (`insert_restored_claim` moves the provenance path on every insertion).
+Not modelled: redaction-explained conflicts (`manifest_differs_by_redaction` — `merge` takes the
+answer of that function as a parameter and keeps its three arms), redaction-driven removal of
+ingredient manifests, `get_claim_referenced_manifests` errors, OCSP capture, thumbnails, ingredient
+fields preset through the ingredient JSON (the ingredient is assumed fresh).
 -/
 namespace C2pa.C39
 
@@ -31,6 +46,8 @@ structure MLabel where
 structure Man where
   label : MLabel
   content : String
+  /-- `claim_version` of the manifest's claim -/
+  ver : Nat
   deriving DecidableEq, Repr
 
 /-- a manifest store / the claim's ingredient store, in insertion order -/
@@ -46,50 +63,129 @@ def replaceOrInsert : MStore → Man → MStore
   | [], m => [m]
   | x :: xs, m => if x.label = m.label then m :: xs else x :: replaceOrInsert xs m
 
-/-- validation results: (kind, code) entries; kind 0 = success, 1 = informational, 2 = failure -/
-abbrev Results := List (Nat × String)
+/-- `Store::provenance_claim`: the last manifest of the store -/
+def provenance (s : MStore) : Option Man := s.getLast?
 
-def failures (r : Results) : List String := (r.filter (·.1 == 2)).map (·.2)
+/-- a validation status. `manifest` = label of the manifest the status URL points into, `path` the
+rest of the URL; `ingUri` = `ingredient_uri` (set on statuses logged while an ingredient is
+validated; not serialised). kind 0 = success, 1 = informational, 2 = failure -/
+structure Status where
+  kind : Nat
+  code : String
+  manifest : String
+  path : String
+  ingUri : Option String
+  deriving DecidableEq, Repr
 
-/-- outcome of validating the ingredient asset on its own
-(`Store::from_manifest_data_and_stream`) -/
+/-- `impl PartialEq for ValidationStatus`: code, url and kind -/
+def Status.same (a b : Status) : Bool :=
+  a.kind == b.kind && a.code == b.code && a.manifest == b.manifest && a.path == b.path
+
+abbrev Results := List Status
+
+def failures (r : Results) : List String := (r.filter (·.kind == 2)).map (·.code)
+
+/-- `ValidationResults::validation_errors` as codes: `None` when there is no failure -/
+def statusOf (r : Results) : Option (List String) :=
+  if failures r = [] then none else some (failures r)
+
+/-- the error classes `update_validation_status` distinguishes -/
+inductive ErrClass
+  | jumbfNotFound
+  | provenanceMissing
+  | unsupportedType
+  /-- `BadParam("unrecognized file type")` -/
+  | unrecognizedFileType
+  | remoteManifestUrl
+  | remoteManifestFetch
+  | operationCancelled
+  | other
+  deriving DecidableEq, Repr
+
+/-- outcome of validating the ingredient asset on its own, by arm of `update_validation_status` -/
 inductive ReadOutcome
-  /-- `JumbfNotFound` / `ProvenanceMissing` / `UnsupportedType` / "unrecognized file type" -/
+  /-- "no claims but valid file" -/
   | noManifest
   /-- a store was produced; `results` = `ValidationResults::from_store(store, log)` -/
-  | ok (store : MStore) (active : MLabel) (results : Results)
-  /-- `RemoteManifestUrl` / `RemoteManifestFetch` -/
+  | ok (store : MStore) (results : Results)
   | inaccessible
-  /-- `OperationCancelled` -/
   | cancelled
   /-- any other `Err(e)`; `logged` = the statuses of the validation log -/
   | hardError (logged : Results)
   deriving DecidableEq, Repr
+
+/-- the arm selection of the `match result` in `update_validation_status` -/
+def armOf (c : ErrClass) (logged : Results) : ReadOutcome :=
+  match c with
+  | .jumbfNotFound | .provenanceMissing | .unsupportedType | .unrecognizedFileType => .noManifest
+  | .remoteManifestUrl | .remoteManifestFetch => .inaccessible
+  | .operationCancelled => .cancelled
+  | .other => .hardError logged
 
 /-- what the `Ingredient` records -/
 structure IngRec where
   active : Option MLabel
   data : Option MStore
   results : Option Results
+  /-- `validation_status` (failure codes) -/
+  status : Option (List String)
   deriving DecidableEq, Repr
 
-/-- `update_validation_status`; `none` = the call itself fails (`OperationCancelled`) -/
-def addStream : ReadOutcome → Option IngRec
-  | .noManifest => some ⟨none, none, none⟩
-  | .ok store active results => some ⟨some active, some store, some results⟩
-  | .inaccessible => some ⟨none, none, some [(2, "manifest.inaccessible")]⟩
+def inaccessibleStatus : Status := ⟨2, "manifest.inaccessible", "", "", none⟩
+
+/-- `update_validation_status(result, manifest_bytes, log)` on a fresh ingredient; `none` = the call
+itself fails (`OperationCancelled`) -/
+def record (o : ReadOutcome) (bytes : Option MStore) : Option IngRec :=
+  match o with
+  | .noManifest => some ⟨none, none, none, none⟩
+  | .ok store results =>
+    -- active_manifest only `if let Some(claim) = store.provenance_claim()`,
+    -- manifest_data only `if let Some(bytes) = manifest_bytes`
+    some ⟨(provenance store).map (·.label), bytes, some results, statusOf results⟩
+  | .inaccessible => some ⟨none, none, some [inaccessibleStatus], some ["manifest.inaccessible"]⟩
   | .cancelled => none
-  | .hardError logged => some ⟨none, none, some logged⟩
+  | .hardError logged => some ⟨none, none, some logged, statusOf logged⟩
+
+/-- `add_stream_internal`: `load` = `Store::load_jumbf_from_stream` (nothing is logged when it
+fails), `validate` = `Store::from_manifest_data_and_stream` on the loaded bytes (the store it returns
+is the parsed bytes) -/
+def addStreamInternal (load : Except ErrClass MStore)
+    (validate : MStore → Except (ErrClass × Results) Results) : Option IngRec :=
+  match load with
+  | .error c => record (armOf c []) none
+  | .ok bytes =>
+    match validate bytes with
+    | .ok results => record (.ok bytes results) (some bytes)
+    | .error (c, logged) => record (armOf c logged) (some bytes)
+
+/-- the same seen from the outcome: in the `ok` case the bytes are the store -/
+def addStream (o : ReadOutcome) : Option IngRec :=
+  record o (match o with | .ok s _ => some s | _ => none)
 
 inductive Err
-  | bothOrNeither      -- "Ingredient v3 activeManifest and validationResults must both be present or absent"
-  | labelMalformed     -- OtherError("ingredient label malformed")
+  | bothOrNeither        -- "Ingredient v3 activeManifest and validationResults must both be present or absent"
+  | labelMalformed       -- OtherError("ingredient label malformed")
   | notFound
+  | missingProvenance    -- OtherError("ingredient missing provenace claim")
+  | versionTooNew        -- OtherError("ingredient version too new")
+  | versionCompatibility -- Error::VersionCompatibility
+  | claimVersion         -- Error::ClaimVersion
   deriving DecidableEq, Repr
 
-/-- the v3 ingredient assertion: `(activeManifest, validationResults)` -/
-def toAssertion (i : IngRec) : Except Err (Option MLabel × Option Results) :=
-  if i.active.isSome == i.results.isSome then .ok (i.active, i.results) else .error .bothOrNeither
+/-- the ingredient assertion: manifest reference (`c2pa_manifest` / `activeManifest`),
+`validationResults` (v3 only), `validation_status` (v2 assertion only) -/
+structure IngAssertion where
+  manifestRef : Option MLabel
+  results : Option Results
+  status : Option (List String)
+  deriving DecidableEq, Repr
+
+/-- the tail of `add_to_claim` + the assertion serialiser -/
+def toAssertion (claimVersion : Nat) (ref : Option MLabel) (i : IngRec) : Except Err IngAssertion :=
+  if claimVersion = 1 then .ok ⟨ref, none, i.status⟩
+  else if claimVersion = 2 then
+    if ref.isSome == i.results.isSome then .ok ⟨ref, i.results, none⟩ else .error .bothOrNeither
+  else .error .claimVersion
 
 /-- how `manifest_differs_by_redaction` classifies a conflict -/
 inductive RedactionKind
@@ -111,32 +207,40 @@ def maxVersion (s : MStore) : Option Nat :=
   | v :: vs => some (vs.foldl max v)
 
 /-- the conflict loop of `load_ingredient_to_claim` (claim version > 1, resolution not skipped):
-returns the claim's store (with relabelled copies added) and the labels to drop from the
-incoming store -/
-def resolve (kind : Man → RedactionKind) : List Man → MStore → List MLabel →
+returns the claim's store (with relabelled copies added through `add_ingredient_data`, which checks
+the claim version) and the labels to drop from the incoming store -/
+def resolve (claimVersion : Nat) (kind : Man → RedactionKind) : List Man → MStore → List MLabel →
     Except Err (MStore × List MLabel)
   | [], cur, drop => .ok (cur, drop)
   | m :: ms, cur, drop =>
     match kind m with
-    | .onlyInClaim => resolve kind ms cur (drop ++ [m.label])
-    | .onlyInIncoming => resolve kind ms cur drop
-    | .both => resolve kind ms cur drop
+    | .onlyInClaim => resolve claimVersion kind ms cur (drop ++ [m.label])
+    | .onlyInIncoming => resolve claimVersion kind ms cur drop
+    | .both => resolve claimVersion kind ms cur drop
     | .notByRedaction =>
       match maxVersion cur with
       | none => .error .labelMalformed
       | some v =>
         let fixup : Man := { m with label := { m.label with version := some (v + 1), reason := some 1 } }
-        resolve kind ms (replaceOrInsert cur fixup) drop
+        if fixup.ver > claimVersion then .error .versionCompatibility
+        else resolve claimVersion kind ms (replaceOrInsert cur fixup) drop
 
 /-- `Store::load_ingredient_to_claim`: the claim's ingredient store afterwards -/
 def merge (claimVersion : Nat) (skip : Bool) (kind : Man → RedactionKind) (cur inc : MStore) :
     Except Err MStore :=
-  if claimVersion > 1 && !skip then
-    match resolve kind (conflicts cur inc) cur [] with
-    | .error e => .error e
-    | .ok (cur', drop) =>
-      .ok ((inc.filter fun m => !drop.contains m.label).foldl replaceOrInsert cur')
-  else .ok (inc.foldl replaceOrInsert cur)
+  match provenance inc with
+  | none => .error .missingProvenance
+  | some pc =>
+    if claimVersion < pc.ver then .error .versionTooNew
+    else
+      match (if claimVersion > 1 && !skip then resolve claimVersion kind (conflicts cur inc) cur []
+             else .ok (cur, [])) with
+      | .error e => .error e
+      | .ok (cur', drop) =>
+        let adds := inc.filter fun m => !drop.contains m.label
+        -- `add_ingredient_data`: "make sure the ingredient is version compatible"
+        if adds.any (fun m => decide (m.ver > claimVersion)) then .error .versionCompatibility
+        else .ok (adds.foldl replaceOrInsert cur')
 
 /-- adding the manifest stores of a list of ingredients, in order (`Builder::to_claim` loop) -/
 def mergeAll (claimVersion : Nat) (skip : Bool) (kind : Man → RedactionKind) :
@@ -147,44 +251,124 @@ def mergeAll (claimVersion : Nat) (skip : Bool) (kind : Man → RedactionKind) :
     | .error e => .error e
     | .ok cur' => mergeAll claimVersion skip kind ss cur'
 
+/-- `Ingredient::add_to_claim`: the claim's ingredient store afterwards and the ingredient assertion -/
+def addToClaim (claimVersion : Nat) (skip : Bool) (kind : Man → RedactionKind) (cur : MStore)
+    (i : IngRec) : Except Err (MStore × IngAssertion) :=
+  match i.data with
+  | none =>
+    match toAssertion claimVersion none i with
+    | .error e => .error e
+    | .ok a => .ok (cur, a)
+  | some store =>
+    match merge claimVersion skip kind cur store with
+    | .error e => .error e
+    | .ok cur' =>
+      match toAssertion claimVersion ((provenance store).map (·.label)) i with
+      | .error e => .error e
+      | .ok a => .ok (cur', a)
+
+/-! ### the parent's read: which logged statuses are reported -/
+
+/-- `ValidationResults::from_store`: `active` = label of the store's provenance claim, `captured` =
+all statuses found in the ingredient assertions of the store (made absolute), `logged` = the
+statuses of the validation log. -/
+def fromStore (active : Option String) (captured logged : List Status) : List Status :=
+  match active with
+  | none => []
+  | some a =>
+    if logged.any (fun s => s.manifest != a) then
+      logged.filter fun s => s.ingUri.isNone || s.manifest == a || !captured.any (·.same s)
+    else logged
+
+/-- the failure entries of `ingredientDeltas` (`add_status` files a status with an ingredient URI
+under that ingredient) -/
+def deltaFailures (reported : List Status) : List Status :=
+  reported.filter fun s => s.ingUri.isSome && s.kind == 2
+
 /-! ### line protocol -/
 
+/-- `label:content:claimVersion[:labelVersion]`, comma separated, `-` = empty -/
 def parseStore (s : String) : MStore :=
   (splitList (if s == "-" then "" else s) ",").filterMap fun t =>
     match t.splitOn ":" with
-    | [l, c] => some ⟨⟨l, none, none⟩, c⟩
-    | [l, c, v] => some ⟨⟨l, v.toNat?, some 1⟩, c⟩
+    | [l, c, cv] => some ⟨⟨l, none, none⟩, c, cv.toNat?.getD 2⟩
+    | [l, c, cv, v] => some ⟨⟨l, v.toNat?, some 1⟩, c, cv.toNat?.getD 2⟩
     | _ => none
 
 def labelStr (l : MLabel) : String :=
   l.guid ++ (match l.version with | some v => s!"::{v}_{l.reason.getD 0}" | none => "")
 
+def errStr : Err → String
+  | .bothOrNeither => "err bothOrNeither"
+  | .labelMalformed => "err malformed"
+  | .missingProvenance => "err missingProv"
+  | .versionTooNew => "err tooNew"
+  | .versionCompatibility => "err versionCompat"
+  | _ => "err other"
+
+def errClassOf (s : String) : ErrClass :=
+  if s == "JumbfNotFound" then .jumbfNotFound
+  else if s == "ProvenanceMissing" then .provenanceMissing
+  else if s == "UnsupportedType" then .unsupportedType
+  else if s == "UnrecognizedFileType" then .unrecognizedFileType
+  else if s == "RemoteManifestUrl" then .remoteManifestUrl
+  else if s == "RemoteManifestFetch" then .remoteManifestFetch
+  else if s == "OperationCancelled" then .operationCancelled
+  else .other
+
+def b01 (b : Bool) : String := if b then "1" else "0"
+
+/-- `kind|code|manifest|path|ingUri` (`-` = none), `;` separated -/
+def parseStatuses (s : String) : List Status :=
+  (splitList (if s == "-" then "" else s) ";").filterMap fun t =>
+    match t.splitOn "|" with
+    | [k, c, m, p, u] => some ⟨k.toNat?.getD 0, c, m, p, if u == "-" then none else some u⟩
+    | _ => none
+
 def handle (toks : List String) : String :=
   match toks with
   | "add" :: rest =>
-    let src := field rest "kind"
-    let out : ReadOutcome :=
-      if src == "manifest" then .ok [⟨⟨"L", none, none⟩, "c"⟩] ⟨"L", none, none⟩ [(0, "claimSignature.validated")]
-      else if src == "damaged" then .hardError []
-      else if src == "remote" then .inaccessible
-      else .noManifest
+    -- `read` = class of the stand-alone read (`ok` or the error class), `vers` = claim versions of
+    -- the manifests of the stand-alone store (active last), `v` = version of the claim being built
+    let v := (field rest "v").toNat?.getD 2
+    let read := field rest "read"
+    let vers := (splitList (if field rest "vers" == "-" then "" else field rest "vers") ",")
+    let store : MStore := (List.range vers.length).zip vers |>.map fun (k, cv) =>
+      ⟨⟨s!"M{k}", none, none⟩, s!"c{k}", cv.toNat?.getD 2⟩
+    let out : ReadOutcome := if read == "ok" then .ok store [] else armOf (errClassOf read) []
     match addStream out with
     | none => "cancelled"
     | some i =>
-      match toAssertion i with
-      | .error _ => "error"
-      | .ok (a, r) => s!"ingredients=1 active={a.isSome} results={r.isSome}"
-  | "pair" :: _ => "ingredients=2"
+      let sign := match addToClaim v false (fun _ => .notByRedaction) [] i with
+        | .error e => errStr e
+        | .ok _ => "ok"
+      s!"rec active={b01 i.active.isSome} data={b01 i.data.isSome} results={b01 i.results.isSome} sign={sign}"
   | "merge" :: rest =>
     let v := (field rest "v").toNat?.getD 2
     match merge v (field rest "skip" == "1") (fun _ => .notByRedaction)
         (parseStore (field rest "cur")) (parseStore (field rest "inc")) with
-    | .error .labelMalformed => "err malformed"
-    | .error _ => "err other"
+    | .error e => errStr e
     | .ok s =>
       let items := s.map fun m => labelStr m.label ++ ":" ++ m.content
       let items := if field rest "sorted" == "1" then (items.toArray.qsort (· < ·)).toList else items
       "ok " ++ ",".intercalate items
+  | "mergeall" :: rest =>
+    -- the ingredient stores of a `to_claim` loop, `|` separated, into an empty ingredient store
+    let v := (field rest "v").toNat?.getD 2
+    match mergeAll v (field rest "skip" == "1") (fun _ => .notByRedaction)
+        ((field rest "stores").splitOn "|" |>.map parseStore) [] with
+    | .error e => errStr e
+    | .ok s =>
+      let items := s.map fun m => labelStr m.label ++ ":" ++ m.content
+      let items := if field rest "sorted" == "1" then (items.toArray.qsort (· < ·)).toList else items
+      "ok " ++ ",".intercalate items
+  | "fromstore" :: rest =>
+    let a := field rest "active"
+    let rep := fromStore (if a == "-" then none else some a) (parseStatuses (field rest "captured"))
+      (parseStatuses (field rest "logged"))
+    let items := rep.map fun s => s!"{s.kind}|{s.code}|{s.manifest}|{s.path}|{s.ingUri.getD "-"}"
+    let items := (items.toArray.qsort (· < ·)).toList
+    "rep " ++ (if items.isEmpty then "-" else ";".intercalate items)
   | _ => "bad-op"
 
 end C2pa.C39
